@@ -358,11 +358,11 @@ func (p *RedisProtocol) processArray() ([]interface{}, error) {
 	}
 	ret := make([]interface{}, 0)
 	for i := 0; i < int(l); i++ {
-		if obj, _, err := p.process(); err != nil {
-			ret = append(ret, err)
-		} else {
-			ret = append(ret, obj)
+		obj, _, err := p.process()
+		if err != nil {
+			return nil, err
 		}
+		ret = append(ret, obj)
 	}
 	return ret, nil
 }
